@@ -1,4 +1,5 @@
 import Chewing.Proofs.CliSource
+import Chewing.Proofs.CliQuoted
 /-!
 Whole source files of well-formed lines: every line parses, so the compiler reports nothing and inserts
 the records in file order; the text goes through `writeln!` / `BufRead::lines` unchanged (LF or CRLF).
@@ -11,6 +12,8 @@ structure SrcLine where
   /-- quotes around the phrase / the frequency -/
   qp : Bool
   qf : Bool
+  /-- one pair of quotes around the syllables and the comment (`"鑰匙",668,"ㄧㄠˋ ㄔˊ # not official"`) -/
+  qs : Bool
   /-- the runs of delimiters after the phrase and after the frequency, the run between syllables -/
   g1 : Text
   g2 : Text
@@ -19,7 +22,7 @@ structure SrcLine where
   cm : Option (Text × Text)
   r : Rec
 
-def SrcLine.text (l : SrcLine) : Text := renderLine l.qp l.qf l.g1 l.g2 l.gs l.cm l.r
+def SrcLine.text (l : SrcLine) : Text := renderLineQ l.qp l.qf l.qs l.g1 l.g2 l.gs l.cm l.r
 
 /-- the line is well formed for the delimiter `d` -/
 def SrcLine.OK (d : Nat) (l : SrcLine) : Prop :=
@@ -87,7 +90,7 @@ theorem compileRun_wellformed (f : Flags) (hdr : Text) (ls : List SrcLine) (h : 
   | nil => exact .nil
   | cons l ls ih =>
     obtain ⟨h1, h2, h3, h4, h5⟩ := h l List.mem_cons_self
-    exact .cons (parse_renderLine f.delim f.keep l.qp l.qf l.g1 l.g2 l.gs l.cm l.r h1 (delim_sylSep f) h2 h3 h4 h5)
+    exact .cons (parse_renderLineQ f.delim f.keep l.qp l.qf l.qs l.g1 l.g2 l.gs l.cm l.r h1 (delim_sylSep f) h2 h3 h4 h5)
       (ih fun x hx => h x (List.mem_cons_of_mem _ hx))
 
 /-! ### the frequency rule and well-formedness -/
